@@ -719,6 +719,7 @@ def client_stream(ctx, U, rng):
     w = issue("value::sso", "1700000000", None, "client-fixed-witness")
     judge(w.replace("value::sso|1700000000", "value::sso1|700000000"), None, "ts-head-to-load-1", w)
     safe = "abcXYZ019:._-"
+    seen_all = set()
     for enc in (None, CLIENT_ENC):
         issue("other", "1700000001", enc, "client-fixed")
         for _ in range(6 if ctx.quick else 60):
@@ -731,6 +732,16 @@ def client_stream(ctx, U, rng):
             for kind, s2 in mutations(rng, val, other, exhaustive=False):
                 if s2 != val and s2 not in seen and not any(s2 == g[2] for g in gl):
                     seen.add(s2)
+                    judge(s2, enc, kind, val)
+    # loads a decoding layer would rewrite (all characters SimpleCookie passes through unquoted)
+    for i, load in enumerate(["next=%2Fhome&x=a%20b", "100%7Csure", "%3A%3A", "15%25", "%", "%zz", "a+b", "+", "&#124;", "AbC", "q'q'"]):
+        for enc in (None, CLIENT_ENC):
+            issue(load, str(1700000100 + i), enc, "client-canon")
+    for enc in (None, CLIENT_ENC):
+        for load, ts, val in [g for g in genuine[enc] if "%" in g[0] or "+" in g[0]][:4]:
+            for kind, s2 in reencodings(val):
+                if s2 != val and s2 not in seen_all and not any(s2 == g[2] for g in genuine[enc]):
+                    seen_all.add(s2)
                     judge(s2, enc, kind, val)
     # a separator inside the load (signed-only: four parts are taken for the AES-GCM variant)
     issue("a|b", "17", None, "client-bar-in-load")
@@ -762,7 +773,9 @@ def provider_cookies(ctx, U, modes_by_keys, rng, make_cases, parse_cases):
                 kw, name={"session": "oidc_op", "register": "oidc_op_reg", "session_management": "oidc_op_sman"})}})
             mode = modes_by_keys[name]
             ectx = server.context
-            for state in ["plain", "a|b", "x::y", "ends:", "|", "::", "å|€::", "{\"k\": \"v|w\"}", rvalue(rng), rvalue(rng)]:
+            for state in ["plain", "a|b", "x::y", "ends:", "|", "::", "å|€::", "{\"k\": \"v|w\"}", rvalue(rng), rvalue(rng),
+                          "https://rp.example.org/cb?next=%2Fhome&x=a%20b", "100%7Csure|really::yes", "a+b c%2Bd", "50%",
+                          "&#124;\\174 \uff5c", rcanon(rng), rcanon(rng)]:
                 sid = "SID|" + rvalue(rng, 5)
                 info = ectx.new_cookie(name="oidc_op", sid=sid, state=state)
                 c = info["value"]
@@ -831,6 +844,7 @@ def run(ctx):
             for _ in range(nrand // 3):
                 do_make(ctx, U, mode, rvalue(rng, 6), rng.choice(TYPES_HOSTILE), str(rng.randint(1, 99)), clock.now,
                         make_cases, parse_cases, "roundtrip-random-hostile-type")
+            canon_roundtrips(ctx, U, mode, rng, clock, make_cases, parse_cases)
         # values that spell an issued blob: a MAC / ciphertext text inside the payload
         for mode in modes:
             blob_texts = list(U.by_text)[:6]
@@ -866,6 +880,13 @@ def run(ctx):
                 other = gen[(bi * 7 + 4) % len(gen)][3]
             for kind, s in mutations(rng, c, other, exhaustive=bi < 3):
                 if s != c:
+                    do_parse(ctx, U, mode, s, kind, parse_cases, seen, base=c)
+        # re-encodings: of the bases, and of genuine cookies whose content carries escapes / plus signs / white space
+        issued = {g[3] for g in gen}
+        esc = [g for g in gen if re.search(r"%[0-9A-Fa-f]{2}|\+|&#|\\[01]", g[0] + g[1])]
+        for v, t, ts, c in bases[:6] + esc[:4] + rng.sample(esc[4:], min(nbase, max(0, len(esc) - 4))):
+            for kind, s in reencodings(c):
+                if s != c and s not in issued:
                     do_parse(ctx, U, mode, s, kind, parse_cases, seen, base=c)
         # cookies of the other handlers and of the attackers
         for om in modes:
